@@ -134,7 +134,12 @@ GenValid(t) == /\ \A n \in GenNames : DefCount(t, n) <= 1
                /\ ~UndefinedTarget(t)
                /\ \E k \in 1..Len(t) : t[k].tgt # ""
 GenTexts == {t \in UNION {[1..n -> GenLines] : n \in 2..GenLen} : GenValid(t)}
-GenAll == SetToSeq({[kept |-> t, abs |-> Resolve(t), rel |-> ResolveRel(t)] : t \in GenTexts})
+\* labelled mode (remove_unused_labels): a label line stays exactly when some instruction names the label
+LineText(l) == IF IsLabel(l) THEN <<l.lab \o ":">> ELSE l.toks
+DropUnused(t) ==
+  LET keep == SelectSeq(t, LAMBDA l : ~IsLabel(l) \/ l.lab \in Referenced(t))
+  IN [k \in 1..Len(keep) |-> LineText(keep[k])]
+GenAll == SetToSeq({[kept |-> t, abs |-> Resolve(t), rel |-> ResolveRel(t), used |-> DropUnused(t)] : t \in GenTexts})
 GenInit == tid = 0 /\ verdict = "" /\ JsonSerialize("gen.json", GenAll)
 GenSpec == GenInit /\ [][FALSE]_<<tid, verdict>>
 
@@ -142,6 +147,7 @@ GenSpec == GenInit /\ [][FALSE]_<<tid, verdict>>
 T1 == << [lab |-> "", toks |-> <<"j", "b">>, tgt |-> "b", fn |-> ""], [lab |-> "a", toks |-> <<>>, tgt |-> ""], [lab |-> "", toks |-> <<"yield">>, tgt |-> ""],
          [lab |-> "b", toks |-> <<>>, tgt |-> ""], [lab |-> "", toks |-> <<"jal", "a">>, tgt |-> "a"] >>
 ASSUME Resolve(T1) = << <<"j", "2">>, <<"yield">>, <<"jal", "1">> >>
+ASSUME DropUnused(<< T1[1], T1[2], T1[3], T1[4] >>) = << <<"j", "b">>, <<"yield">>, <<"b:">> >>
 ASSUME ResolveRel(T1) = << <<"jr", "3">>, <<"a:">>, <<"yield">>, <<"jal", "a">> >>
 ASSUME ~UndefinedTarget(T1) /\ UndefinedTarget(<< [lab |-> "", toks |-> <<"j", "nowhere">>, tgt |-> "nowhere"] >>)
 =============================================================================
